@@ -152,6 +152,11 @@ def step (st : St) (ts : List String) : St × String :=
         | some back => (st, s!"hex={String.join (bytes.map hex2)} nodes={natList (segNodes back)} edges={natList (segEdges back)}")
         | none => (st, "panic")
       | none => (st, "bad-op")
+  | ["toseg", ns, es] => match parseIds ns, parseIds es with
+      | some ns, some es => match toSegment ns es with
+        | some sg => (st, s!"nodes={natList (segNodes sg)} edges={natList (segEdges sg)}")
+        | none => (st, "panic")
+      | _, _ => (st, "bad-op")
   | ["tsbfs", c, d, md, root, filt] => (st, traverse st true c d md root filt)
   | ["tsdfs", c, d, md, root, filt] => (st, traverse st false c d md root filt)
   | ["zone", md, ids] => match md.toInt?, parseIds ids with
